@@ -607,6 +607,10 @@ def run_impl_guarded(runner, c):
         G.reset_partition()
 
 
+_TooSlow = C.TooSlow
+_time_limit = C.time_limit
+
+
 def correspondence(rep, family, n, maxops, tag="", maxdigits=None):
     """returns (cases, impl_outputs) so that monitors can reuse the implementation runs.
     maxdigits: cases whose exact results contain integers longer than this are not sent to Coq
@@ -618,7 +622,14 @@ def correspondence(rep, family, n, maxops, tag="", maxdigits=None):
     while len(cases) < n and tries < 4 * n:
         tries += 1
         c = gen(r, maxops)
-        o = run_impl_guarded(runner, c)
+        try:
+            with _time_limit(20):
+                o = run_impl_guarded(runner, c)
+        except _TooSlow:
+            # exact rationals whose size explodes (hundreds of digits after a few redistribution rounds) make a single
+            # implementation run take minutes: such a case is of no use to the comparison either (see maxdigits)
+            skipped_big += 1
+            continue
         if maxdigits and o[0] is not None and any(abs(x) >= 10 ** maxdigits for x in o[0]):
             skipped_big += 1
             continue
